@@ -81,7 +81,10 @@ inductive EvalRes where
 deriving Repr, DecidableEq, Inhabited
 
 /-- `executeBinaryExpr` once both operands are values.  The dispatch is on the dynamic
-type of the left operand, exactly as in execute.go:215-324. -/
+type of the left operand, exactly as in execute.go:215-324.  Boolean `< > <= >=` coerce the
+right operand to a boolean first (`ProcessValueBoolean{rhs.getBoolean()}.getNumber()`, after
+`fix: bool < > <= >= coerce the right operand to a boolean`; before it they used
+`rhs.getNumber()`, so `false < 'abc'` was false). -/
 def evalBin (op : Op) (l r : PVal) : EvalRes :=
   match l.type with
   | .string =>
